@@ -198,6 +198,80 @@ func poolHoled2(cfg2 *geometry.IndexOptions) (as, bs []*shp) {
 	return
 }
 
+// poolBigInner: inner shapes with >= 16 positions (the containment code has a
+// bounding-box shortcut for them) against convex and concave outers whose
+// notches, slots and holes reach into the inner shape's box. Coordinates in
+// half-units (H2 takes half-unit integers directly).
+func poolBigInner(cfg2 *geometry.IndexOptions) (outers, inners []*shp) {
+	H2 := func(c ...int64) []exact.P {
+		var out []exact.P
+		for i := 0; i+1 < len(c); i += 2 {
+			out = append(out, exact.P{X: c[i], Y: c[i+1]})
+		}
+		return out
+	}
+	// a 16-gon "disc" of radius 3 about (5,5), in lattice units
+	disc := [][2]int64{{5, 2}, {6, 2}, {7, 3}, {8, 4}, {8, 5}, {8, 6}, {7, 7}, {6, 8}, {5, 8}, {4, 8}, {3, 7}, {2, 6}, {2, 5}, {2, 4}, {3, 3}, {4, 2}}
+	for _, scale := range []int64{2, 1} { // full size, half size (half-unit coordinates)
+		for dx := int64(-2); dx <= 2; dx++ {
+			for dy := int64(-2); dy <= 2; dy++ {
+				var ring []exact.P
+				for _, p := range disc {
+					ring = append(ring, exact.P{X: p[0]*scale + dx*2, Y: p[1]*scale + dy*2})
+				}
+				closed := append(append([]exact.P{}, ring...), ring[0])
+				a := mkShp(&exact.Shape{Kind: exact.KPoly, Ext: closed}, cfg2)
+				a.tag = "disc16"
+				inners = append(inners, a)
+				l := mkShp(&exact.Shape{Kind: exact.KLine, Line: closed}, idxCfgs[1].Opts)
+				l.tag = "loop17"
+				inners = append(inners, l)
+			}
+		}
+	}
+	add := func(tag string, ext []exact.P, holes ...[]exact.P) {
+		if v, _, sh := exact.ValidPoly(ext, holes); !v || sh {
+			return
+		}
+		for rot := 0; rot < 4; rot++ { // the four axis-aligned orientations about (5,5) (half-units: 10,10)
+			r := func(ps []exact.P) []exact.P {
+				out := make([]exact.P, len(ps))
+				for i, p := range ps {
+					x, y := p.X-10, p.Y-10
+					for k := 0; k < rot; k++ {
+						x, y = -y, x
+					}
+					out[i] = exact.P{X: x + 10, Y: y + 10}
+				}
+				return out
+			}
+			var hs [][]exact.P
+			for _, h := range holes {
+				hs = append(hs, r(h))
+			}
+			o := mkShp(&exact.Shape{Kind: exact.KPoly, Ext: r(ext), Holes: hs}, cfg2)
+			o.tag = tag
+			outers = append(outers, o)
+		}
+	}
+	add("square", H2(0, 0, 20, 0, 20, 20, 0, 20, 0, 0))
+	for _, x0 := range []int64{6, 8, 9, 10} {
+		for _, w := range []int64{2, 4} {
+			for _, d := range []int64{8, 12, 16} {
+				// U: slot [x0,x0+w] x [20-d,20] cut from the top
+				add("U", H2(0, 0, 20, 0, 20, 20, x0+w, 20, x0+w, 20-d, x0, 20-d, x0, 20, 0, 20, 0, 0))
+				// V notch from the top reaching depth d
+				add("V", H2(0, 0, 20, 0, 20, 20, x0+w, 20, x0+w/2, 20-d, x0, 20, 0, 20, 0, 0))
+			}
+		}
+	}
+	add("L", H2(0, 0, 20, 0, 20, 10, 10, 10, 10, 20, 0, 20, 0, 0))
+	add("hole-inside-disc", H2(0, 0, 20, 0, 20, 20, 0, 20, 0, 0), H2(9, 9, 11, 9, 11, 11, 9, 11, 9, 9))
+	add("hole-at-disc-edge", H2(0, 0, 20, 0, 20, 20, 0, 20, 0, 0), H2(15, 9, 18, 9, 18, 11, 15, 11, 15, 9))
+	add("hole-outside-disc", H2(0, 0, 24, 0, 24, 24, 0, 24, 0, 0), H2(19, 19, 22, 19, 22, 22, 19, 22, 19, 19))
+	return
+}
+
 func abs64i(a int64) int64 {
 	if a < 0 {
 		return -a
@@ -356,6 +430,8 @@ type pools struct {
 	hPoints, hRects, hLines, hPolys []*shp
 	// two-hole polygons x one-hole polygons
 	holed2A, holed2B []*shp
+	// >= 16-position inner shapes x outers with notches / slots / holes
+	bigOuter, bigInner []*shp
 	desc             map[string]any
 }
 
@@ -385,6 +461,9 @@ func buildPools(thorough bool) *pools {
 	p.hPolys = poolPolys(3, 1, 4, idxCfgs[2].Opts)
 	p.hPolys = append(p.hPolys, poolPolys(3, 0, 4, idxCfgs[2].Opts)...)
 	p.holed2A, p.holed2B = poolHoled2(idxCfgs[2].Opts)
+	p.bigOuter, p.bigInner = poolBigInner(idxCfgs[2].Opts)
+	p.desc["outers_for_16_position_inners"] = len(p.bigOuter)
+	p.desc["inners_with_16_positions"] = len(p.bigInner)
 	p.desc["two_hole_polys"] = len(p.holed2A)
 	p.desc["one_hole_partner_polys"] = len(p.holed2B)
 	p.desc["points"] = len(p.points)
@@ -412,7 +491,7 @@ func forPairs(r *rt.Run, as, bs []*shp, same bool, fn func(a, b *shp, w *rt.Work
 
 // allPairs runs fn on every kind combination of the tier's pools.
 func allPairs(r *rt.Run, p *pools, fn func(a, b *shp, w *rt.Worker)) {
-	for _, pl := range [][]*shp{p.points, p.rects, p.lines, p.polys, p.holed, p.holed2A, p.holed2B} {
+	for _, pl := range [][]*shp{p.points, p.rects, p.lines, p.polys, p.holed, p.holed2A, p.holed2B, p.bigOuter, p.bigInner} {
 		r.States.Add(int64(2 * len(pl)))
 		for _, s := range pl {
 			r.Trans.Add(int64(len(s.E.Skeleton())))
@@ -434,4 +513,6 @@ func allPairs(r *rt.Run, p *pools, fn func(a, b *shp, w *rt.Worker)) {
 	forPairs(r, p.holed, p.hPolys, false, fn)
 	forPairs(r, p.holed2A, p.holed2B, false, fn)
 	forPairs(r, p.holed2A, p.holed2A, true, fn)
+	forPairs(r, p.bigOuter, p.bigInner, false, fn)
+	forPairs(r, p.bigInner, p.bigInner, true, fn)
 }
